@@ -177,6 +177,9 @@ func (e *Env) Eval(ex Expr) (Val, error) {
 		if err != nil {
 			return Val{}, err
 		}
+		if _, isArr := ty.Underlying().(*types.Array); isArr && len(t.Fields) == 0 {
+			return Val{T: u.zeroOf(ty), Ty: ty}, nil
+		}
 		st, ok := ty.Underlying().(*types.Struct)
 		if !ok {
 			return Val{}, e.errf("composite literal of non-struct %s", ty)
